@@ -79,6 +79,12 @@ def scan_features(prog, f):
             feats["F2b"] = "every arm is tried (the arm loop ends only when the arms are exhausted)"
         else:
             problems.append(("F2", "the loop over the arms can be left early: later arms are not tried"))
+        # F2c: ... and is matched on every round (no arm is skipped: anchors and word boundaries make a regex that failed at
+        # one offset match at a later one)
+        if cycle_avoiding(body, h2, bl2, {cb}):
+            problems.append(("F2", "a round of the arm loop can skip Regex::captures: an arm is not matched at every scan position"))
+        else:
+            feats["F2c"] = "every arm is matched at every scan position"
     else:
         problems.append(("F2", "no loop over the arms around Regex::captures"))
     # F1: loop guard i < subject.len()
